@@ -85,8 +85,17 @@ type Conn struct {
 	Frames    []Frame
 	parsed    int
 	Malformed string // first framing fault in the outbound stream (sticky)
-	NWrites   int
-	WriteErrs int
+	// back-pressure (the remote stops reading)
+	writing     bool
+	wStalled    bool
+	wWindow     int
+	wwait       []chan struct{}
+	wdl         time.Time
+	WriteStalls int
+	StallAt     []time.Duration
+	ResumeAt    []time.Duration
+	NWrites     int
+	WriteErrs   int
 	// lifecycle
 	Handed     bool // returned to corebgp by Accept or by the dialler
 	HandedSeq  uint64
@@ -180,42 +189,147 @@ func (c *Conn) Read(b []byte) (int, error) {
 func (c *Conn) Write(b []byte) (int, error) {
 	simrt.Yield("conn.write")
 	task := simrt.CurrentID()
+	written := 0
+	// Like the net package, one Write call at a time per connection: the bytes of a
+	// call that has to wait for the remote stay contiguous.
+	mine := false
+	defer func() {
+		if mine {
+			c.mu.Lock()
+			c.writing = false
+			c.wakeWriters()
+			c.mu.Unlock()
+		}
+	}()
+	for {
+		c.mu.Lock()
+		if c.LClosed {
+			c.WriteErrs++
+			c.mu.Unlock()
+			c.w.Ev("%s write on closed conn by %s", c, task)
+			c.w.Net.noteWrite(c, task, false)
+			return written, net.ErrClosed
+		}
+		if c.writing && !mine {
+			wk := make(chan struct{})
+			c.wwait = append(c.wwait, wk)
+			c.mu.Unlock()
+			simrt.BlockOn("conn.write.lock", wk)
+			continue
+		}
+		c.writing, mine = true, true
+		if c.rRST || c.WriteFail {
+			c.WriteErrs++
+			c.mu.Unlock()
+			c.w.Ev("%s write fails (reset) by %s", c, task)
+			c.w.Net.noteWrite(c, task, false)
+			return written, errPipe
+		}
+		// back-pressure: a remote that has stopped reading accepts wWindow more bytes
+		room := len(b) - written
+		if c.wStalled && room > c.wWindow {
+			room = c.wWindow
+		}
+		if room > 0 || len(b) == 0 {
+			chunk := b[written : written+room]
+			first := c.NWrites == 0
+			if first {
+				c.FirstWrite = c.w.Now()
+				c.ownerTask = task
+			}
+			c.NWrites++
+			c.Out = append(c.Out, chunk...)
+			if c.wStalled {
+				c.wWindow -= room
+			}
+			seq := c.w.Ev("%s write %d bytes by %s: %x", c, len(chunk), task, clip(chunk, 48))
+			c.parse(seq, task)
+			if first && len(c.Frames) > 0 && c.Frames[0].Type == MsgOpen {
+				c.OpenSentAt = c.w.Now()
+				c.OpenSeq = seq
+				c.w.Net.noteWrite(c, task, true)
+			} else {
+				c.w.Net.noteWrite(c, task, false)
+			}
+			written += room
+		}
+		if written == len(b) {
+			c.mu.Unlock()
+			return written, nil
+		}
+		// the rest has to wait until the remote reads again, the write deadline passes
+		// or the connection goes away
+		dl := c.wdl
+		if !dl.IsZero() && !time.Now().Before(dl) {
+			c.WriteErrs++
+			c.mu.Unlock()
+			c.w.Ev("%s write deadline exceeded after %d of %d bytes by %s", c, written, len(b), task)
+			return written, &net.OpError{Op: "write", Net: "tcp", Err: os.ErrDeadlineExceeded}
+		}
+		wk := make(chan struct{})
+		c.wwait = append(c.wwait, wk)
+		c.WriteStalls++
+		c.mu.Unlock()
+		c.w.Fault("write-blocked-by-back-pressure")
+		if dl.IsZero() {
+			simrt.BlockOn("conn.write.wait", wk)
+			continue
+		}
+		d := time.Until(dl)
+		if s := simrt.Active(); s != nil {
+			d += s.UniqueOffset(d, 0)
+		}
+		fired := make(chan struct{})
+		tm := time.AfterFunc(d, func() { close(fired) })
+		simrt.BlockOn2("conn.write.wait", wk, fired)
+		tm.Stop()
+	}
+}
+
+func (c *Conn) wakeWriters() {
+	for _, wk := range c.wwait {
+		close(wk)
+	}
+	c.wwait = nil
+}
+
+// StallWrites makes the remote stop reading: corebgp's writes are accepted for
+// another window bytes (the socket buffers) and then block.
+func (c *Conn) StallWrites(window int) {
 	c.mu.Lock()
-	if c.LClosed {
-		c.WriteErrs++
-		c.mu.Unlock()
-		c.w.Ev("%s write on closed conn by %s", c, task)
-		c.w.Net.noteWrite(c, task, false)
-		return 0, net.ErrClosed
-	}
-	if c.rRST || c.WriteFail {
-		c.WriteErrs++
-		c.mu.Unlock()
-		c.w.Ev("%s write fails (reset) by %s", c, task)
-		c.w.Net.noteWrite(c, task, false)
-		return 0, errPipe
-	}
-	first := c.NWrites == 0
-	if first {
-		c.FirstWrite = c.w.Now()
-		c.ownerTask = task
-	}
-	c.NWrites++
-	c.Out = append(c.Out, b...)
-	seq := c.w.Ev("%s write %d bytes by %s: %x", c, len(b), task, clip(b, 48))
-	c.parse(seq, task)
-	if first && len(c.Frames) > 0 && c.Frames[0].Type == MsgOpen {
-		c.OpenSentAt = c.w.Now()
-		c.OpenSeq = seq
-		c.w.Net.noteWrite(c, task, true)
-	} else {
-		c.w.Net.noteWrite(c, task, false)
-	}
-	if c.parsed != len(c.Out) && c.Malformed == "" {
-		c.Malformed = fmt.Sprintf("write #%d left a partial frame (%d trailing bytes)", c.NWrites, len(c.Out)-c.parsed)
+	c.wStalled, c.wWindow = true, window
+	c.StallAt = append(c.StallAt, c.w.Now())
+	c.mu.Unlock()
+	c.w.Ev("%s remote stops reading (window %d bytes)", c, window)
+	c.w.Fault("remote-stops-reading")
+}
+
+// ResumeWrites makes the remote read again.
+func (c *Conn) ResumeWrites() {
+	c.mu.Lock()
+	if c.wStalled {
+		c.wStalled = false
+		c.ResumeAt = append(c.ResumeAt, c.w.Now())
+		c.wakeWriters()
 	}
 	c.mu.Unlock()
-	return len(b), nil
+	c.w.Ev("%s remote reads again", c)
+}
+
+// StreamFault is the first framing fault of the outbound stream; once the
+// stream has ended (or at the end of a run) a trailing partial message is one.
+func (c *Conn) StreamFault(ended bool) string {
+	c.mu.Lock()
+	defer c.mu.Unlock()
+	if c.Malformed != "" {
+		return c.Malformed
+	}
+	// (a write cut short by the end of a connection whose remote had stopped reading
+	// is TCP's doing, not corebgp's)
+	if ended && c.parsed != len(c.Out) && len(c.StallAt) == 0 {
+		return fmt.Sprintf("the stream ends with a partial message (%d trailing bytes)", len(c.Out)-c.parsed)
+	}
+	return ""
 }
 
 func clip(b []byte, n int) []byte {
@@ -273,6 +387,7 @@ func (c *Conn) Close() error {
 		c.LCloseAt = c.w.Now()
 		c.LCloseTask = task
 		c.wakeReader()
+		c.wakeWriters()
 		c.mu.Unlock()
 		c.LCloseSeq = c.w.Ev("%s closed by corebgp task %s", c, task)
 		return nil
@@ -305,10 +420,13 @@ func (c *Conn) tcpAddr(a Addr) net.Addr {
 	return &net.TCPAddr{IP: ip, Port: port}
 }
 
-// Read deadlines are honoured (a blocked Read wakes up and re-evaluates when the
-// deadline is changed); write deadlines are accepted and irrelevant because
-// Write never blocks.
-func (c *Conn) SetDeadline(t time.Time) error { return c.SetReadDeadline(t) }
+// Deadlines are honoured (a blocked Read or Write wakes up and re-evaluates when
+// its deadline is changed). Write only ever blocks while the remote has stopped
+// reading (StallWrites).
+func (c *Conn) SetDeadline(t time.Time) error {
+	c.SetWriteDeadline(t)
+	return c.SetReadDeadline(t)
+}
 func (c *Conn) SetReadDeadline(t time.Time) error {
 	c.mu.Lock()
 	c.rdl = t
@@ -316,7 +434,13 @@ func (c *Conn) SetReadDeadline(t time.Time) error {
 	c.mu.Unlock()
 	return nil
 }
-func (c *Conn) SetWriteDeadline(time.Time) error { return nil }
+func (c *Conn) SetWriteDeadline(t time.Time) error {
+	c.mu.Lock()
+	c.wdl = t
+	c.wakeWriters()
+	c.mu.Unlock()
+	return nil
+}
 
 // ---- the remote side (used by scripts and oracles) ----
 
@@ -367,6 +491,7 @@ func (c *Conn) RST() {
 	c.rbuf = nil
 	c.RFinAt = c.w.Now()
 	c.wakeReader()
+	c.wakeWriters()
 	c.mu.Unlock()
 	c.RFinSeq = c.w.Ev("%s remote RST", c)
 	c.w.Fault("rst")
